@@ -26,7 +26,7 @@ RULE = ('each run = one generated tree + Manifest layout (nesting, several Manif
         'last_mtime values); non-trivial = at least one corruption was applied or a last_mtime was '
         'given or a sub-path verified, and the model verdict was not a don\'t-care zone; distinct = '
         'distinct seam event-log digest')
-PLAN = {'quick': {'n': 3200, 'budget_s': 55, 'block': 40},
+PLAN = {'quick': {'n': 12000, 'budget_s': 90, 'block': 40},
         'thorough': {'n': 120000, 'budget_s': 900, 'block': 200}}
 ASSUMPTIONS = ['M-verify (sim/model.py) is the reference reading of "matches"; its don\'t-care zones are counted in evidence',
                'enumeration order, mtimes and clock are owned by the seam; the byte store is a real tmpfs']
